@@ -53,6 +53,18 @@ def ev(e, env, enum_prefixes):
             return not v
         if isinstance(e.op, ast.USub):
             return -v
+    if isinstance(e, ast.BinOp):
+        import operator
+        fn = {ast.Add: operator.add, ast.Sub: operator.sub, ast.Mult: operator.mul, ast.FloorDiv: operator.floordiv, ast.Mod: operator.mod,
+              ast.Pow: operator.pow, ast.BitAnd: operator.and_, ast.BitOr: operator.or_, ast.BitXor: operator.xor, ast.LShift: operator.lshift,
+              ast.RShift: operator.rshift}.get(type(e.op))
+        a, b = ev(e.left, env, enum_prefixes), ev(e.right, env, enum_prefixes)
+        if fn is not None and all(isinstance(x, int) and not isinstance(x, bool) for x in (a, b)) and not (isinstance(e.op, ast.Pow) and (b < 0 or b > 64)) \
+                and not (isinstance(e.op, (ast.FloorDiv, ast.Mod)) and b == 0) and not (isinstance(e.op, (ast.LShift, ast.RShift)) and not 0 <= b <= 128):
+            return fn(a, b)
+        if isinstance(e.op, ast.Add) and isinstance(a, list) and isinstance(b, list):
+            return a + b
+        raise AnalysisError(f"finite-eval: unsupported arithmetic {unparse(e)[:60]}")
     if isinstance(e, ast.BoolOp):
         if isinstance(e.op, ast.And):
             v = True
@@ -148,6 +160,15 @@ def run(stmts, env, enum_prefixes):
                 run(s.orelse, env, enum_prefixes)
         elif isinstance(s, ast.Assign) and len(s.targets) == 1 and isinstance(s.targets[0], ast.Name):
             env[s.targets[0].id] = ev(s.value, env, enum_prefixes)
+        elif isinstance(s, ast.Assign) and len(s.targets) == 1 and isinstance(s.targets[0], ast.Attribute) and unparse(s.targets[0]) .startswith("self."):
+            # attributes of self live in the environment under their dotted text
+            env[unparse(s.targets[0])] = ev(s.value, env, enum_prefixes)
+        elif isinstance(s, ast.AugAssign) and (isinstance(s.target, ast.Name) or (isinstance(s.target, ast.Attribute) and unparse(s.target).startswith("self."))):
+            cur = ast.copy_location(ast.Name(id=s.target.id, ctx=ast.Load()), s) if isinstance(s.target, ast.Name) else \
+                ast.copy_location(ast.Attribute(value=s.target.value, attr=s.target.attr, ctx=ast.Load()), s)
+            env[unparse(s.target)] = ev(ast.BinOp(left=cur, op=s.op, right=s.value), env, enum_prefixes)
+        elif isinstance(s, ast.AnnAssign) and s.value is not None and isinstance(s.target, ast.Name):
+            env[s.target.id] = ev(s.value, env, enum_prefixes)
         elif isinstance(s, ast.Expr) and isinstance(s.value, ast.Constant):
             continue
         elif isinstance(s, ast.Pass):
